@@ -249,3 +249,18 @@ def arm_terms(bv, sbi, local=0):
         for n in si.edge_names(bv, b):
             out[n] = t
     return si, out
+
+
+def plus_one_base(v):
+    """If the rendered term `v` is `X + 1` in one of its equivalent spellings, return X (rendered), else None.
+    Spellings: plain/compound addition (overflow-checked), saturating_add, checked_add(..).unwrap_or(<T>::MAX).
+    (wrapping_add and checked_add(..).unwrap_or(<anything else>) are *not* increments: they can move the value down.)"""
+    import re
+    v = v.strip()
+    for op, suffix in (("AddWithOverflow(", ", 1).0"), ("saturating_add(", ", 1)"), ("Add(", ", 1)"), ("add_assign(", ", 1)")):
+        if v.startswith(op) and v.endswith(suffix):
+            return v[len(op):-len(suffix)]
+    m = re.fullmatch(r"unwrap_or\(checked_add\((.*), 1\), ([^,()]*(?:::MAX|MAX)|9223372036854775807|4294967295|18446744073709551615|2147483647)\)", v)
+    if m:
+        return m.group(1)
+    return None
